@@ -141,6 +141,9 @@ type callerMem struct {
 	optSnap  trie.Opt
 	boolSnap [4]int8
 	spec     *TrieSpec
+	// the record buffer the []byte values are cut out of (whole buffer:
+	// content, the sentinel gaps and everything behind each element's len)
+	arena, arenaSnap []byte
 }
 
 const spareElems = 3
@@ -157,7 +160,11 @@ func newCallerMem(sp *TrieSpec) *callerMem {
 		}
 	}
 	m.keys = all[:n]
+	shortValues, lastValueArena = true, nil
 	m.vals = valuesOf(sp.Enc, sp.ValIDs, spareElems)
+	shortValues = false
+	m.arena = lastValueArena
+	m.arenaSnap = append([]byte{}, m.arena...)
 	o := sp.opt()
 	optsAll := make([]trie.Opt, 2)
 	optsAll[0] = o
@@ -232,6 +239,10 @@ func (m *callerMem) check() string {
 			}
 			return "value slice changed"
 		}
+	}
+	if !bytes.Equal(m.arena, m.arenaSnap) {
+		i := firstDiff(m.arena, m.arenaSnap)
+		return fmt.Sprintf("the record buffer the []byte values are slices of changed at offset %d (%#02x -> %#02x): a write behind len of a value element or into a neighbouring value", i, m.arenaSnap[i], m.arena[i])
 	}
 	o := m.opts[0]
 	if o != m.optSnap {
